@@ -105,6 +105,12 @@ def main():
             cls = "SAM" if comp == "sam" else rng.choice(["SA", "SA", "ANY"]) if a.what == "search" else "SA"
             gaps = ["exploitability", "l1_norm", "linf_norm"] + (["l2_norm"] if a.what == "search" else [])
             gap = gaps[i % len(gaps)]
+            if a.what in ("best", "greedy") and i % 2 == 1:
+                # games outside the class: the curve of best sets need not be monotone (seed C11-d); norm gaps stay >= 0
+                cls, gap = "ANY", ("l1_norm", "linf_norm")[(i // 2) % 2]
+                gapf = GAP_FUNCTIONS[gap]
+                if comp == "sam":
+                    comp, r = ("sa", "sac")[(i // 4) % 2], 0
             gapf = GAP_FUNCTIONS[gap]
             tiny = 2.0 ** -30 if (a.what in ("search", "best") and rng.random() < 0.35) else 1.0    # games of very small magnitude (still exact)
             if a.what == "search":
@@ -210,6 +216,8 @@ def main():
             else:
                 reps = rng.randint(1, 3)
                 shape = rng.random()
+                if cls == "ANY":
+                    shape = 1.0
                 if shape < 0.2:                      # additive games: the gap is closed from the start
                     games_f = []
                     for _ in range(reps):
@@ -218,6 +226,13 @@ def main():
                 elif shape < 0.4 and cls != "SAM":   # factory games with one owner: the gap closes before everything is revealed
                     o = rng.randrange(n)
                     games_f = [[float(bin(c).count("1") - 1) * tiny if c >> o & 1 else 0.0 for c in range(2 ** n)] for _ in range(reps)]
+                elif cls == "ANY":                   # far outside the class: values that jump up and down with the coalition size, so
+                    games_f = []                     # that one more reveal can WIDEN the gap (seed C11-d: the curve need not be monotone)
+                    for _ in range(reps):
+                        z = [0, 0] + [rng.randint(-10, 10) for _ in range(n - 1)]
+                        if rng.random() < 0.6:            # big pairs, negative larger coalitions, small grand value
+                            z = [0, 0, rng.randint(5, 12)] + [-rng.randint(5, 12) for _ in range(n - 3)] + [rng.randint(0, 2)]
+                        games_f.append([float(z[bin(c).count("1")] + (rng.randint(0, 1) if bin(c).count("1") >= 2 else 0)) * tiny for c in range(2 ** n)])
                 else:
                     games_f = [[x * tiny for x in random_game(n, rng, cls)] for _ in range(reps)]
                 scale = scale_of([x for g in games_f for x in g])
@@ -230,7 +245,7 @@ def main():
                 p = rng.choice(procs)
                 tid += 1
                 t = base(tid, n, a.what, comp, r, gap, minimal, scale)
-                t.update({"max_steps": max_steps, "p": p, "inclass": 1, "exh_upto": 2 if n >= 4 else 3})
+                t.update({"max_steps": max_steps, "p": p, "inclass": int(cls != "ANY"), "exh_upto": 2 if n >= 4 else 3})
                 drawn_before = len(counting.games)
                 try:
                     if a.what == "best":
@@ -242,7 +257,8 @@ def main():
                         t["seq"] = [int(c) for c in seq]
                     sampled = counting.games[drawn_before:]        # the games drawn during the call, however many the constructor drew
                     t["games"] = [D.exact_arr(g.get_values(), scale) for g in sampled]
-                    t["rows"] = [[gap_iv(x, n, gap, scale, M) if x >= 0 else [-1, -1] for x in row] for row in np.asarray(rows)]
+                    # the code's placeholder for "no row" is exactly -1.0; a gap of -1e-16 (rounding residue of an exploitability of 0) is a gap
+                    t["rows"] = [[gap_iv(x, n, gap, scale, M) if float(x) != -1.0 else [-1, -1] for x in row] for row in np.asarray(rows)]
                 except D.DriverError:
                     raise
                 except Exception as ex:  # noqa: BLE001
